@@ -101,7 +101,7 @@ func C02(c *run.Ctx) {
 					s.Redeem(g, sim.RedeemOpts{As: foreign, Auth: &au, Extra: url.Values{"client_id": {owner}}})
 				}
 			case 2: // another registered / an unregistered redirect_uri
-				other := pick(r, []string{"https://evil.example/cb", sent + "/", sent + "?x=1", strings.Replace(sent, "https://", "http://", 1), sent + "x"})
+				other := pick(r, []string{"https://evil.example/cb", sent + "/", sent + "?x=1", strings.Replace(sent, "https://", "http://", 1), sent + "x", pathCaseVariant(sent), pathCaseVariant(sent)})
 				if len(sp.RedirectURIs) > 1 {
 					for _, u := range sp.RedirectURIs {
 						if u != sent && r.Intn(2) == 0 {
@@ -207,4 +207,25 @@ func C02(c *run.Ctx) {
 			c.Sample(sample(s, v))
 		}
 	}
+}
+
+// pathCaseVariant changes the letter case of the path (and query) of a URI: paths are case-sensitive, so this is a different URI.
+func pathCaseVariant(u string) string {
+	i := strings.Index(u, "://")
+	if i < 0 {
+		return u + "X"
+	}
+	j := strings.Index(u[i+3:], "/")
+	if j < 0 {
+		return u + "/X"
+	}
+	k := i + 3 + j
+	v := u[:k] + strings.ToUpper(u[k:])
+	if v == u {
+		v = u[:k] + strings.ToLower(u[k:])
+	}
+	if v == u {
+		return u + "X"
+	}
+	return v
 }
